@@ -27,7 +27,7 @@ META = {
             "incomplete dataset or >=1 starter, n>=4, and the id order of the input dataset differs from the id order "
             "of a dataset built from the departure rankings.",
     "assumptions": ["dyadic schemes compared exactly, decimal ones with 1e-6"],
-    "budget_s": {"quick": 160, "thorough": 900},
+    "budget_s": {"quick": 180, "thorough": 1500},
     "floors": {"not_worse/incomplete": 0.4},
 }
 
@@ -210,8 +210,59 @@ def election_cases(draw, tier):
             "at_most_one": draw(st.booleans()), "rng": draw(st.integers(0, 9999))}
 
 
+@st.composite
+def padded_cases(draw, tier):
+    """a small instance (the part where the local search can get stuck) embedded in the middle of more than a thousand
+    elements that every ranking orders the same way: sizes at which array printing, recursion limits, dtype widths ...
+    start to matter, while the difficulty stays that of the small instance"""
+    core = draw(gen.datasets(max_n=7, min_n=3, max_m=5, kinds=("dense",), allow_empty_rankings=False,
+                             shapes=["cyclic", "cyclic_ties", "block_cyclic", "mixture", "incomplete", "complete",
+                                     "near_unanimous", "cyclic_incomplete"]))
+    return {"core": core, "pad": draw(st.sampled_from([500, 505, 520])),
+            "scheme": draw(st.one_of(gen.preset_multiples(["unifying", "unifying_half", "induced"]),
+                                     gen.tie_averse_schemes(), gen.free_schemes())),
+            "starters": draw(st.sampled_from(["none", "none", "kwik_x5", "borda_copeland"])),
+            "rng": draw(st.integers(0, 9999))}
+
+
+def check_padded(case, ctx):
+    pad, core = case["pad"], case["core"]["rankings"]
+    head = [[1000 + i] for i in range(pad)]
+    tail = [[5000 + i] for i in range(pad)]
+    rankings = [head + [list(b) for b in r] + tail for r in core]
+    d, s = lib.mk_dataset(rankings), lib.mk_scheme(case["scheme"])
+    recs = [configs.Recorder(a) for a in STARTERS[case["starters"]]()]
+    alg = BioConsert(recs) if recs else BioConsert()
+    random.seed(case["rng"])
+    st_, val = lib.call(alg.compute_consensus_rankings, d, s, True, allowed=configs.REFUSALS)
+    n = 2 * pad + len(oracle.universe(core))
+    ctx.stats.case(case, st_ == "ok" and not gen.is_complete(core), ["starters:" + case["starters"], "status:" + st_,
+                                                                       "n:%d" % n])
+    if st_ != "ok":
+        return
+    crs = val.consensus_rankings
+    if len(crs) != 1 or sorted(lib.raw(e) for b in crs[0].buckets for e in b) != sorted(
+            lib.raw(e) for e in d.universe):
+        raise Violation("BioConsert on %d elements: the consensus does not rank exactly the universe" % n)
+    # at this size the scorer is the library's own routine (C01 validates it up to 100 000 elements)
+    kc = lib.KemenyComputingFactory(s)
+    got = float(lib.must(kc.get_kemeny_score, crs[0], d))
+    if recs:
+        deps = [r.calls[0][1].consensus_rankings[0] for r in recs if r.calls]
+    else:
+        deps = list(lib.must(d.unified_rankings))
+    for dep in deps:
+        ds_ = float(lib.must(kc.get_kemeny_score, dep, d))
+        if got > ds_ + 1e-6 * max(1.0, abs(ds_)):
+            core_view = [[lib.raw(e) for e in b] for b in dep.buckets if not any(lib.raw(e) >= 1000 for e in b)]
+            raise Violation("BioConsert[%s] on %d elements (a core of %d embedded in %d unanimous ones) returned a "
+                            "ranking of score %r, worse than its starting point of score %r (core part %s)" % (
+                                case["starters"], n, n - 2 * pad, 2 * pad, got, ds_, core_view))
+
+
 def subchecks():
     return [HypSub("not_worse", cases, check, 10000, 150000),
             HypSub("cheap_ties", cheap_tie_cases, check, 6000, 60000),
             HypSub("large_multiplicities", election_cases, check, 500, 6000),
-            HypSub("corollaries", corollary_cases, check_corollary, 6000, 60000)]
+            HypSub("corollaries", corollary_cases, check_corollary, 6000, 60000),
+            HypSub("padded_large", padded_cases, check_padded, 200, 6000)]
